@@ -2,11 +2,15 @@
 Model of `lang.HasPathTo` (analysis/lang/blocks.go) as it is called by `lang.RunForwardIterative`
 (analysis/lang/visitors.go: `pathMem` is never allocated, so `mem == nil`), core Lean only.
 
-Go (current code)                               Lean
+Two models: `stepFix` / `hasPathFix` is the code since commit 2099ce8 ("fix: lang.HasPathTo marks blocks when
+enqueued", finding F7); `stepOld` / `hasPathOld` is the code before it, kept with its theorems as the witness of
+the defect. Table T11 (regenerated) says which one the working tree contains.
+
+Go (before 2099ce8)                             Lean
 ---------------------------------------------------------------------------------------
 vis := map[*ssa.BasicBlock]bool{}               vis : List Nat         (block indices)
 que := []*ssa.BasicBlock{b1}                    que : List Nat         (FIFO, head = que[0])
-for len(que) > 0 {                              one call of `stepCur` per loop iteration
+for len(que) > 0 {                              one call of `stepOld` per loop iteration
   cur := que[0]
   if cur == b2 { return true }                  .found
   vis[cur] = true                               cur :: vis             (marked when DEQUEUED)
@@ -15,8 +19,8 @@ for len(que) > 0 {                              one call of `stepCur` per loop i
     if !vis[nb] { que = append(que, nb) } } }   rest ++ succs.filter (· ∉ cur :: vis)
 return false                                    .exhausted
 
-`stepFix` is the one-line repair proposed in /verif/fixes/F7_haspath.patch: a block is marked when
-it is ENQUEUED, so it enters the queue at most once.
+`stepFix` (the code now): `vis := {b1: true}` and `if !vis[nb] { vis[nb] = true; que = append(que, nb) }` — a block
+is marked when it is ENQUEUED, so it enters the queue at most once.
 
 A CFG is the list of successor lists, indexed by block index.
 -/
@@ -43,8 +47,8 @@ inductive Outcome where
   | cont (s : PState)
   deriving Repr, DecidableEq
 
-/-- one iteration of the loop of the CURRENT `HasPathTo` (mem = nil). -/
-def stepCur (g : Cfg) (tgt : Nat) (s : PState) : Outcome :=
+/-- one iteration of the loop of `HasPathTo` before the repair (mem = nil). -/
+def stepOld (g : Cfg) (tgt : Nat) (s : PState) : Outcome :=
   match s.que with
   | [] => .exhausted
   | cur :: rest =>
@@ -59,7 +63,7 @@ def enqueueNew : List Nat → PState → PState
     if s.vis.contains nb then enqueueNew nbs s
     else enqueueNew nbs { que := s.que ++ [nb], vis := nb :: s.vis }
 
-/-- one iteration of the REPAIRED loop (mark on enqueue). -/
+/-- one iteration of the loop of the current code (mark on enqueue). -/
 def stepFix (g : Cfg) (tgt : Nat) (s : PState) : Outcome :=
   match s.que with
   | [] => .exhausted
@@ -82,16 +86,16 @@ def runWith (step : PState → Outcome) : Nat → PState → Nat → PResult
     | .exhausted => { answer := false, steps := n, done := true }
     | .cont s' => runWith step fuel s' (n + 1)
 
-def initCur (src : Nat) : PState := { que := [src], vis := [] }
+def initOld (src : Nat) : PState := { que := [src], vis := [] }
 def initFix (src : Nat) : PState := { que := [src], vis := [src] }
 
-/-- `HasPathTo(b1, b2, nil)` of the current code. -/
-def hasPathCur (g : Cfg) (src tgt fuel : Nat) : PResult := runWith (stepCur g tgt) fuel (initCur src) 0
+/-- `HasPathTo(b1, b2, nil)` before commit 2099ce8. -/
+def hasPathOld (g : Cfg) (src tgt fuel : Nat) : PResult := runWith (stepOld g tgt) fuel (initOld src) 0
 
-/-- `HasPathTo(b1, b2, nil)` after the repair. -/
+/-- `HasPathTo(b1, b2, nil)` of the current code (after the repair). -/
 def hasPathFix (g : Cfg) (src tgt fuel : Nat) : PResult := runWith (stepFix g tgt) fuel (initFix src) 0
 
-/-- geometric sum 1 + d + … + d^u : the step bound of the current code (`u` = number of blocks). -/
+/-- geometric sum 1 + d + … + d^u : the step bound of the old code (`u` = number of blocks). -/
 def geo (d : Nat) : Nat → Nat
   | 0 => 1
   | u + 1 => 1 + d * geo d u
